@@ -1475,9 +1475,9 @@ def two_part_split(p, is_subject, sep):
     so = None
     for c in p.conds():
         t = c.term
-        if isinstance(t, tuple) and t and t[0] == "discr" and is_call(strip_refs(t[1]), "str>::split_once") and _sep(call_args(strip_refs(t[1]))[1]) == sep \
+        if isinstance(t, tuple) and t and t[0] == "discr" and is_call(strip_refs(t[1]), "str>::split_once", "str>::find") and _sep(call_args(strip_refs(t[1]))[1]) == sep \
                 and is_subject(content(call_args(strip_refs(t[1]))[0])):
-            so = strip_refs(t[1])
+            so = strip_refs(t[1])        # the FIRST separator, found by split_once or by find (the parts are then slices at that position)
             found = c.fact == ("eq", 1) or (c.fact[0] == "ne" and 0 in c.fact[1])
     if so is None:
         return (None, None, None)
